@@ -483,12 +483,7 @@ fn grid_scenario(flavor: Flavor, cfgv: (usize, i64, usize, usize, bool, bool, u6
     }
     // the workers are alive, wait() returns Ok, a final insert is still processed
     phase("wait");
-    let mut waited = d.wait();
-    let t0 = Instant::now();
-    while waited.is_err() && t0.elapsed() < Duration::from_secs(20) {
-        std::thread::yield_now();
-        waited = d.wait();
-    }
+    let waited = crate::driver::wait_retry(d.as_ref(), Duration::from_secs(30));
     if let Err(e) = &waited {
         f.add("C20", "wait/never-ok", format!("wait() kept failing on an idle cache: {e}"));
     }
